@@ -314,7 +314,8 @@ theorem known_bypasses_refused :
      "PRAGMA 'synchronous'=1", "PRAGMA `synchronous`=3", "PRAGMA [synchronous]=1",
      "PRAGMA synchronous -- x\n = 3", ";;PRAGMA synchronous=1", "pragma\tSYNCHRONOUS\n=\r1",
      "CREATE TABLE x(a); PRAGMA query_only=1", "PRAGMA \"main\".\"query_only\"(true)",
-     "PRAGMA journal_mode=DELETE", "PRAGMA wal_checkpoint", "PRAGMA main.wal_checkpoint"].all refused = true := by
+     "PRAGMA journal_mode=DELETE", "PRAGMA wal_checkpoint", "PRAGMA main.wal_checkpoint",
+     "PRAGMA main\x0c\x0b.synchronous(1)", "PRAGMA \x0bsynchronous = 2"].all refused = true := by
   decide +kernel
 
 /-- the guard does not refuse reads of the settings, quoted text that merely
